@@ -103,6 +103,17 @@ def read_graph(graph_raw) -> nx.DiGraph:
 
     if n == 0:
         utils.logger.info(f"Graph {graph_id} has 0 vertices.")
+        # An empty graph has no edges: constraints cannot name any, and no edge lines may follow.
+        if constraint_subpaths:
+            utils.logger.error(f"{__name__}: Graph {graph_id} has 0 vertices but declares subpath constraints.")
+            raise ValueError(f"Graph {graph_id} has 0 vertices but declares subpath constraints.")
+        for line in graph_raw[idx:]:
+            if line.strip() and not line.lstrip().startswith('#'):
+                utils.logger.error(f"{__name__}: Graph {graph_id} has 0 vertices but contains the line: {line.rstrip()}")
+                raise ValueError(f"Graph {graph_id} has 0 vertices but contains the line: {line.rstrip()}")
+        G.graph["n"] = 0
+        G.graph["m"] = 0
+        G.graph["w"] = 0
         return G
 
     # Parse edges: skip blanks and comment/header lines defensively
